@@ -7,6 +7,6 @@ MCPerm == [s \in {1, 2, 3} |->
             []   s = 2 -> <<  <<0>>, <<0, 1>>, <<1, 2, 0>>, <<0, 3, 2, 1>> >>
             []   s = 3 -> <<  <<0>>, <<1, 0>>, <<0, 2, 1>>, <<2, 0, 1, 3>> >> ]
 MCNReps == -1..5
-MCNRepsQuick == {0, 1, 2, 3, 5}
+MCNRepsQuick == {0, 2, 3, 5}
 MCNRepsPos == 1..3
 =============================================================================
